@@ -91,7 +91,7 @@ pub fn run_fw(toks: &[&str]) -> String {
     };
     let mut outs = vec!["o".to_string()];
     let mut pc_slots = Vec::new();
-    let mut img_slots: Vec<(usize, String, bool)> = Vec::new();
+    let mut img_slots: Vec<(usize, String, Vec<bool>)> = Vec::new();
     for t in &toks[1..] {
         if t.starts_with("X:") || *t == "DUMP" {
             continue;
@@ -104,64 +104,72 @@ pub fn run_fw(toks: &[&str]) -> String {
                 outs.push(res_s(guard(|| w.add_blob(&mut src)), |b: Blob| format!("b{}:{}", b.offset, b.length)));
             }
             "I" => {
-                // image: kind v|p|s|c, data, optional mask; binary-wise two blob sections
-                let data = unhex(parts[2]);
-                let mask = if parts[3] == "-" { None } else { Some(unhex(parts[3])) };
-                let kind = parts[1].to_string();
+                // image: kinds (one or two of v|p|s|c: visual reference and/or one projection), then for each
+                // kind its data and optional mask; binary-wise one blob section per data/mask
+                let kinds: Vec<char> = parts[1].chars().collect();
+                let mut reps: Vec<(char, Vec<u8>, Option<Vec<u8>>)> = Vec::new();
+                for (k, c) in kinds.iter().enumerate() {
+                    let data = unhex(parts[2 + 2 * k]);
+                    let mask = if parts[3 + 2 * k] == "-" { None } else { Some(unhex(parts[3 + 2 * k])) };
+                    reps.push((*c, data, mask));
+                }
+                let masks: Vec<bool> = reps.iter().map(|r| r.2.is_some()).collect();
                 let r = guard(|| -> e57::Result<()> {
                     let mut iw = w.add_image("img-guid")?;
-                    let mut src = std::io::Cursor::new(data);
-                    let mut msrc = mask.map(std::io::Cursor::new);
-                    let m: Option<&mut dyn std::io::Read> = match msrc.as_mut() {
-                        Some(c) => Some(c),
-                        None => None,
-                    };
-                    match kind.as_str() {
-                        "v" => iw.add_visual_reference(
-                            e57::ImageFormat::Png,
-                            &mut src,
-                            e57::VisualReferenceImageProperties { width: 3, height: 2 },
-                            m,
-                        )?,
-                        "p" => iw.add_pinhole(
-                            e57::ImageFormat::Jpeg,
-                            &mut src,
-                            e57::PinholeImageProperties {
-                                width: 3,
-                                height: 2,
-                                focal_length: 1.5,
-                                pixel_width: 0.25,
-                                pixel_height: 0.5,
-                                principal_x: 1.0,
-                                principal_y: 2.0,
-                            },
-                            m,
-                        )?,
-                        "s" => iw.add_spherical(
-                            e57::ImageFormat::Png,
-                            &mut src,
-                            e57::SphericalImageProperties { width: 3, height: 2, pixel_width: 0.25, pixel_height: 0.5 },
-                            m,
-                        )?,
-                        _ => iw.add_cylindrical(
-                            e57::ImageFormat::Jpeg,
-                            &mut src,
-                            e57::CylindricalImageProperties {
-                                width: 3,
-                                height: 2,
-                                radius: 2.5,
-                                principal_y: 1.0,
-                                pixel_width: 0.25,
-                                pixel_height: 0.5,
-                            },
-                            m,
-                        )?,
+                    for (kind, data, mask) in reps {
+                        let mut src = std::io::Cursor::new(data);
+                        let mut msrc = mask.map(std::io::Cursor::new);
+                        let m: Option<&mut dyn std::io::Read> = match msrc.as_mut() {
+                            Some(c) => Some(c),
+                            None => None,
+                        };
+                        match kind {
+                            'v' => iw.add_visual_reference(
+                                e57::ImageFormat::Png,
+                                &mut src,
+                                e57::VisualReferenceImageProperties { width: 3, height: 2 },
+                                m,
+                            )?,
+                            'p' => iw.add_pinhole(
+                                e57::ImageFormat::Jpeg,
+                                &mut src,
+                                e57::PinholeImageProperties {
+                                    width: 3,
+                                    height: 2,
+                                    focal_length: 1.5,
+                                    pixel_width: 0.25,
+                                    pixel_height: 0.5,
+                                    principal_x: 1.0,
+                                    principal_y: 2.0,
+                                },
+                                m,
+                            )?,
+                            's' => iw.add_spherical(
+                                e57::ImageFormat::Png,
+                                &mut src,
+                                e57::SphericalImageProperties { width: 3, height: 2, pixel_width: 0.25, pixel_height: 0.5 },
+                                m,
+                            )?,
+                            _ => iw.add_cylindrical(
+                                e57::ImageFormat::Jpeg,
+                                &mut src,
+                                e57::CylindricalImageProperties {
+                                    width: 3,
+                                    height: 2,
+                                    radius: 2.5,
+                                    principal_y: 1.0,
+                                    pixel_width: 0.25,
+                                    pixel_height: 0.5,
+                                },
+                                m,
+                            )?,
+                        }
                     }
                     iw.finalize()
                 });
                 let o = res_s(r, |_| "i?".to_string());
                 if o == "i?" {
-                    img_slots.push((outs.len(), parts[1].to_string(), parts[3] != "-"));
+                    img_slots.push((outs.len(), parts[1].to_string(), masks));
                 }
                 outs.push(o);
             }
@@ -204,24 +212,36 @@ pub fn run_fw(toks: &[&str]) -> String {
         xml_hex = hex(r.xml().as_bytes());
         // images: publish the blob descriptors of each image (data, then mask) like blob results
         let imgs = r.images();
-        for (k, (slot, kind, has_mask)) in img_slots.iter().enumerate() {
+        for (k, (slot, kinds, masks)) in img_slots.iter().enumerate() {
             if let Some(img) = imgs.get(k) {
-                let found: Option<(Blob, Option<Blob>)> = match kind.as_str() {
-                    "v" => img.visual_reference.as_ref().map(|v| (v.blob.data.clone(), v.mask.clone())),
-                    _ => match (&img.projection, kind.as_str()) {
-                        (Some(e57::Projection::Pinhole(p)), "p") => Some((p.blob.data.clone(), p.mask.clone())),
-                        (Some(e57::Projection::Spherical(p)), "s") => Some((p.blob.data.clone(), p.mask.clone())),
-                        (Some(e57::Projection::Cylindrical(p)), "c") => Some((p.blob.data.clone(), p.mask.clone())),
-                        _ => None,
-                    },
-                };
-                if let Some((d, m)) = found {
-                    let mut o = format!("b{}:{}", d.offset, d.length);
-                    match (m, has_mask) {
-                        (Some(m), true) => o += &format!(" b{}:{}", m.offset, m.length),
-                        (None, false) => {}
-                        _ => o += " mask-mismatch",
+                let mut o = String::new();
+                let mut complete = true;
+                for (idx, kind) in kinds.chars().enumerate() {
+                    let found: Option<(Blob, Option<Blob>)> = match kind {
+                        'v' => img.visual_reference.as_ref().map(|v| (v.blob.data.clone(), v.mask.clone())),
+                        _ => match (&img.projection, kind) {
+                            (Some(e57::Projection::Pinhole(p)), 'p') => Some((p.blob.data.clone(), p.mask.clone())),
+                            (Some(e57::Projection::Spherical(p)), 's') => Some((p.blob.data.clone(), p.mask.clone())),
+                            (Some(e57::Projection::Cylindrical(p)), 'c') => Some((p.blob.data.clone(), p.mask.clone())),
+                            _ => None,
+                        },
+                    };
+                    match found {
+                        Some((d, m)) => {
+                            if !o.is_empty() {
+                                o.push(' ');
+                            }
+                            o += &format!("b{}:{}", d.offset, d.length);
+                            match (m, masks[idx]) {
+                                (Some(m), true) => o += &format!(" b{}:{}", m.offset, m.length),
+                                (None, false) => {}
+                                _ => o += " mask-mismatch",
+                            }
+                        }
+                        None => complete = false,
                     }
+                }
+                if complete {
                     outs[*slot] = o;
                 }
             }
